@@ -84,6 +84,11 @@ def run_graph(sc):
                     ss2.Bus.alter("u", bid, 0)
                 else:
                     ss2.Bus.set("u", bid, "v", 0)
+            if sc.get("rewrite"):
+                # a status written again with the value it already has (applying a status vector bus by bus) changes nothing
+                for b in range(1, n + 1):
+                    bid = b if sc.get("idx_kind", "int") == "int" else "B%d" % b
+                    ss2.Bus.alter("u", bid, 0 if b in sc["off"] else 1)
             ss2.PFlow.init()
         except Exception as ex:
             raised2 = "%s: %s" % (type(ex).__name__, str(ex)[:150])
@@ -140,4 +145,65 @@ def run_sequence(sc):
         # assembled Jacobian against finite differences at the solution (power-flow models)
         rec.update(same_success=bool(conv == conv2), same_islands=bool(same_islands), same_solution=bool(same_sol), converged=conv)
         ev.append(rec)
+    return dict(meta=dict(tid=sc["tid"], sid=sc["sid"]), ev=ev)
+
+
+def _conn_record(ss):
+    """what the library reports now, with the graph of in-service series devices read from the devices' present statuses"""
+    pos = {idx: k for k, idx in enumerate(ss.Bus.idx.v)}
+    on = []
+    for name in ("Line", "Jumper"):
+        mdl = ss.models.get(name)
+        if mdl is None:
+            continue
+        for k in range(mdl.n):
+            if mdl.u.v[k] == 1:
+                on.append([pos[mdl.bus1.v[k]], pos[mdl.bus2.v[k]]])
+    slacks = [dict(bus=pos[ss.Slack.bus.v[k]], u=int(ss.Slack.u.v[k])) for k in range(ss.Slack.n)]
+    return dict(e="conn", n=ss.Bus.n, edges_on=on, islanded=[int(b) for b in ss.Bus.islanded_buses],
+                island_sets=[[int(b) for b in s] for s in ss.Bus.island_sets], islands=[[int(b) for b in s] for s in ss.Bus.islands],
+                nosw=[int(k) for k in ss.Bus.nosw_island], msw=[int(k) for k in ss.Bus.msw_island], slacks=slacks)
+
+
+def run_tds_switching(sc):
+    """Islands after each switching event during a simulation: lines are taken out / put back by timed events (Toggle on the
+    model, Toggle on the group name, Alter of the status field); the simulation is paused shortly after each event and the
+    library's island bookkeeping is compared with the graph of the devices' statuses at that moment."""
+    import andes
+    from .common import case_path, sys_kwargs
+    ss = andes.load(case_path(sc["case"]), setup=False, **sys_kwargs())
+    for m in ("Toggle", "Toggler", "Fault", "Alter"):
+        mdl = ss.models.get(m)
+        if mdl is not None and mdl.n:
+            for k in range(mdl.n):
+                mdl.u.v[k] = 0                       # shipped disturbances off: only the scenario's events act
+    lines = list(ss.Line.idx.v)
+    for j, (t, kind, k, val) in enumerate(sc["events"]):
+        if kind == "toggle":
+            ss.add("Toggle", dict(model="Line", dev=lines[k], t=t))
+        elif kind == "toggle_group":
+            ss.add("Toggle", dict(model="ACLine", dev=lines[k], t=t))
+        else:
+            ss.add("Alter", dict(model="Line", dev=lines[k], src="u", attr="v", method="=", amount=val, t=t))
+    ss.setup()
+    ev = []
+    if not ss.PFlow.run():
+        return dict(meta=dict(tid=sc["tid"], sid=sc["sid"]), ev=[])
+    ss.TDS.config.no_tqdm = 1
+    ss.TDS.config.criteria = 0
+    times = sorted({t for t, _, _, _ in sc["events"]})
+    ok = True
+    for t in times + [times[-1] + 0.2]:
+        ss.TDS.config.tf = t + 0.05
+        try:
+            ok = bool(ss.TDS.run())
+        except Exception as ex:
+            ev.append(dict(e="tds_raised", text="%s: %s" % (type(ex).__name__, str(ex)[:120])))
+            break
+        rec = _conn_record(ss)
+        rec["t"] = float(ss.dae.t)
+        rec["tds_ok"] = ok
+        ev.append(rec)
+        if not ok:
+            break
     return dict(meta=dict(tid=sc["tid"], sid=sc["sid"]), ev=ev)
